@@ -1,4 +1,10 @@
 
+(** val negb : bool -> bool **)
+
+let negb = function
+| true -> false
+| false -> true
+
 type nat =
 | O
 | S of nat
@@ -110,6 +116,11 @@ let rec sub n0 m =
             | O -> n0
             | S l -> sub k l)
 
+(** val eqb : bool -> bool -> bool **)
+
+let eqb b1 b2 =
+  if b1 then b2 else if b2 then false else true
+
 type positive =
 | XI of positive
 | XO of positive
@@ -145,6 +156,11 @@ module Nat =
     | S n' -> (match m with
                | O -> false
                | S m' -> leb n' m')
+
+  (** val ltb : nat -> nat -> bool **)
+
+  let ltb n0 m =
+    leb (S n0) m
 
   (** val to_little_uint : nat -> uint -> uint **)
 
@@ -1634,3 +1650,118 @@ let block_matches blk row tree =
   | Some p ->
     let (r, e) = p in (&&) (Nat.eqb r row) (sexpr_eqb e (s_regroup tree))
   | None -> false
+
+(** val all_blank : str -> bool **)
+
+let all_blank c =
+  forallb is_blank c
+
+(** val chunks_from : str -> str -> bool -> str list **)
+
+let rec chunks_from l cur blank =
+  match l with
+  | [] -> (match cur with
+           | [] -> []
+           | _ :: _ -> (rev0 cur) :: [])
+  | c :: r ->
+    if eqb (is_blank c) blank
+    then chunks_from r (c :: cur) blank
+    else (match cur with
+          | [] -> chunks_from r (c :: []) (is_blank c)
+          | _ :: _ -> (rev0 cur) :: (chunks_from r (c :: []) (is_blank c)))
+
+(** val chunks_of : str -> str list **)
+
+let chunks_of l =
+  chunks_from l [] false
+
+(** val fill :
+    nat -> nat -> str list -> str list -> (str list * nat) * str list **)
+
+let rec fill width cur_len cur chs = match chs with
+| [] -> ((cur, cur_len), [])
+| c :: r ->
+  if Nat.leb (add cur_len (length c)) width
+  then fill width (add cur_len (length c)) (c :: cur) r
+  else ((cur, cur_len), chs)
+
+(** val rfind_hyphen : str -> nat -> nat -> nat option -> nat option **)
+
+let rec rfind_hyphen l pos limit best =
+  match l with
+  | [] -> best
+  | c :: r ->
+    if Nat.ltb pos limit
+    then rfind_hyphen r (S pos) limit
+           (if ascii_eqb c '-' then Some pos else best)
+    else best
+
+(** val long_end : str -> nat -> nat **)
+
+let long_end chunk space_left =
+  match rfind_hyphen chunk O space_left None with
+  | Some h ->
+    if (&&) (Nat.ltb O h)
+         (existsb (fun c -> negb (ascii_eqb c '-')) (firstn h chunk))
+    then S h
+    else space_left
+  | None -> space_left
+
+(** val wrap_round : nat -> bool -> str list -> str list * str list **)
+
+let wrap_round width first chs =
+  let chs1 =
+    match chs with
+    | [] -> []
+    | c :: r -> if (&&) (negb first) (all_blank c) then r else chs
+  in
+  let (p, rest) = fill width O [] chs1 in
+  let (cur, cur_len) = p in
+  let (cur2, rest2) =
+    match rest with
+    | [] -> (cur, rest)
+    | c :: r ->
+      if Nat.ltb width (length c)
+      then let e = long_end c (sub width cur_len) in
+           (((firstn e c) :: cur), ((skipn e c) :: r))
+      else (cur, rest)
+  in
+  let cur3 =
+    match cur2 with
+    | [] -> []
+    | c :: r -> if all_blank c then r else cur2
+  in
+  ((rev0 cur3), rest2)
+
+(** val wrap_chunks : nat -> nat -> bool -> str list -> str list list **)
+
+let rec wrap_chunks fuel width first chs =
+  match fuel with
+  | O -> []
+  | S f ->
+    (match chs with
+     | [] -> []
+     | _ :: _ ->
+       let (line, rest) = wrap_round width first chs in
+       (match line with
+        | [] -> wrap_chunks f width first rest
+        | _ :: _ -> line :: (wrap_chunks f width false rest)))
+
+(** val wrap : nat -> str -> str list **)
+
+let wrap width text =
+  map concat
+    (wrap_chunks (add (mul (S (S O)) (length text)) (S (S O))) width true
+      (chunks_of text))
+
+(** val equation_block : str list -> nat -> str -> str option **)
+
+let equation_block names width eq =
+  match rewrite names eq with
+  | Some code -> Some (block eq (wrap width code))
+  | None -> None
+
+(** val array_def_block : nat -> nat list -> str -> str **)
+
+let array_def_block width nums name =
+  wrapped_def (wrap width (int_array_def nums name))
